@@ -60,6 +60,7 @@ bool OneshotAlarm::calculateNextLocalTimeSec(uint32_t curr_local_ts, uint32_t &n
 
 void OneshotAlarm::onTimeExpired() {
   state_ = State::kInited;
+  fired_utc_sec_ = target_utc_sec_;   //! 记录已触发的时间点：若提前触发后又被重新 enable()，不能再次算出同一个时间点
 
   ++cb_level_;
   if (cb_)
